@@ -302,12 +302,15 @@ def tree_step(ctx, prog, fn, direction):
             problems.append('the climb compares every ancestor with the original node: the current-node cursor is never advanced to the parent')
         # result of the climb path: the parent cursor (EMPTY_REF above the root)
         from rules.gate import ret_cases
-        rets = [v for blk, v in ret_cases(b)]
+        rc = list(ret_cases(b))
+        rets = [v for blk, v in rc]
         if not any(v is P for v in rets):
             problems.append('the climb does not return the parent link it stopped at (EMPTY_REF above the root)')
-        for v in rets:
+        for blk, v in rc:
             if v is P:
                 continue
+            if prog.is_empty_ref(v) and known_empty_at(prog, b, P, blk):
+                continue        # the parent cursor, spelled as the constant it was just compared equal to
             if v.kind == 'call' and prog.resolve(v) is not None and prog.resolve(v).path not in prog.accessors:
                 continue        # the descent helper's result
             problems.append('a path returns %s, which is neither the descent result nor the parent link the climb stopped at' % show(v, 3))
@@ -316,6 +319,26 @@ def tree_step(ctx, prog, fn, direction):
     else:
         ctx.add('NEIGHBOUR', fn, 'tree-step', 'ok', 'tests the %s link, descends through %s links, climbs while arriving from the %s, returns the parent link' % (X, Y, X), props, fn.line)
         ctx.add('ENDSENT', fn, 'tree-step', 'ok', 'at the extreme entry the climb ends with the empty parent link of the root: EMPTY_REF', props + ['C13'], fn.line)
+
+
+def known_empty_at(prog, b, P, blk):
+    """block blk is dominated by the edge of a comparison on which value P equals EMPTY_REF"""
+    from rules.gate import edge_truth
+    for sblk, d in b.switch_discr.items():
+        d = strip(d)
+        if not (d.kind == 'bin' and d.args[0] in ('Eq', 'Ne')):
+            continue
+        x, y = strip(d.args[1]), strip(d.args[2])
+        if not ((x is P and prog.is_empty_ref(y)) or (y is P and prog.is_empty_ref(x))):
+            continue
+        t = b.mir['blocks'][sblk]['term']
+        for succ in b.cfg.succ[sblk]:
+            tr = edge_truth(t, succ)
+            if tr is None:
+                continue
+            if (tr if d.args[0] == 'Eq' else not tr) and b.cfg.pred[succ] == [sblk] and b.cfg.dominates(succ, blk):
+                return True
+    return False
 
 
 def loops_back(b, succ, header, body):
